@@ -303,7 +303,10 @@ def wrapper_case(rng, idx, stats):
         elif r < 0.58:
             ops.append("w.d1 %d" % rng.choice(sel))
         elif r < 0.7:
-            ops.append("w.d2 %d %d" % (rng.choice(sel), rng.choice(sel)))
+            i = rng.choice(sel)
+            # the two-argument overload, 35% on the diagonal; or the one-argument overload
+            ops.append(rng.choice(["w.d2 %d %d" % (i, rng.choice(sel)), "w.d2 %d %d" % (i, rng.choice(sel)),
+                                   "w.d2 %d %d" % (i, i), "w.d21 %d" % i]))
         elif r < 0.88 or m == 1:
             ops.append("w.fd %d %s" % (rng.choice(sel), hx(h)))
         else:
@@ -490,7 +493,8 @@ def object_case(rng, idx, stats):
         if y < 0.2:
             ops.append("w.d1 %d" % i)
         elif y < 0.4:
-            ops.append("w.d2 %d %d" % (i, rng.choice(r["names"])))
+            ops.append(rng.choice(["w.d2 %d %d" % (i, rng.choice(r["names"])), "w.d2 %d %d" % (i, rng.choice(r["names"])),
+                                   "w.d2 %d %d" % (i, i), "w.d21 %d" % i]))
         elif y < 0.8 or len(r["names"]) == 1:
             ops.append("w.fd %d %s" % (i, hx(h)))
         else:
